@@ -1272,6 +1272,9 @@ func Run(c *core.Ctx) {
 	if c.Property == "C04" {
 		runLoad(c, c.Pick(24, 400))
 	}
+	if c.Property == "C08" {
+		runRetained(c)
+	}
 	c.Cover("traces_validated_against_impl", len(recs))
 	c.Cover("evaluations", len(recs))
 	c.Cover("rule", "request scenarios executed on the real service: every handler step alone in 3 configurations, ordered pairs of steps (all in thorough, 1/4 in quick), the full dispatch space (type x matched x payload x handler presence), seeded random scripts of 0-4 steps over drawn configurations (resource type, apply handlers, listeners, http flag, 5 resource-name variants); one record per request judged by TLC (TraceRequest.RecordOK)")
